@@ -1,3 +1,61 @@
-"""Model checking of Search.tla (the alpha-beta/PVS/TT/abort algorithm on all small trees)."""
+"""Model checking of Search.tla (the alpha-beta / PVS / TT / abort / iterative-deepening algorithm) on
+all small trees of a family, all move orders, all node budgets and every moment of an asynchronous stop."""
+import concurrent.futures as cf
+import os
+import re
+
+from vlib import *
+
+CFG = '''SPECIFICATION MCSpec
+CONSTANTS
+  B = %(B)d
+  D = %(D)d
+  Vals <- %(vals)s
+  UseTT = %(tt)s
+  Twins <- %(twins)s
+  MaxBudget = %(budget)d
+  AbortChecked = %(abort)s
+  Fallback = %(fallback)s
+  defaultInitValue = defaultInitValue
+INVARIANTS ValueExact WritesClean EntriesTrue OneBest NoPanic InfoOrdered AllDepths PartialSound
+PROPERTY Terminates
+CHECK_DEADLOCK FALSE
+'''
+
+
 def run(prop, tier, cov):
+    base = dict(B=2, D=2, vals='Vals3', tt='FALSE', twins='NoTwins', budget=4, abort='TRUE', fallback='TRUE')
+    runs = [('all trees B=2 D=2 evals {-1,0,1}, cache probes off, budgets 0..4 and none', dict(base), True, 12),
+            ('same family with a transposing pair of nodes and cache probes on', dict(base, tt='TRUE', twins='OneTwin'), True, 2),
+            ('legacy: no re-test after a child returns', dict(base, abort='FALSE', budget=2), False, 2),
+            ('legacy: no fallback move', dict(base, fallback='FALSE', budget=1), False, 2)]
+    if tier == 'thorough':
+        runs.insert(1, ('all trees B=2 D=3 evals {0,1}, cache probes off, budgets 0..3 and none',
+                        dict(base, D=3, vals='Vals2', budget=3), True, 12))
+        runs.insert(2, ('all trees B=3 D=2 evals {0,1}, cache probes off, budgets 0..3 and none',
+                        dict(base, B=3, vals='Vals2', budget=3), True, 12))
     cov.setdefault('mc', {})
+
+    def one(r):
+        name, c, expect_ok, workers = r
+        res = model_check('MCSearch.tla', CFG % c, 'search-mc-%s-%d-%d' % (prop, os.getpid(), abs(hash(name)) % 10000),
+                          workers=workers, timeout=6000)
+        return r, res
+    # the big run first alone, the small ones together
+    results = [one(runs[0])]
+    with cf.ThreadPoolExecutor(max_workers=4) as ex:
+        results += list(ex.map(one, runs[1:]))
+    for (name, c, expect_ok, _), res in results:
+        if expect_ok and not res['ok']:
+            log(res['out'][-3000:])
+            raise ToolError('Search.tla violates its own properties (%s): model bug' % name)
+        if not expect_ok and res['ok']:
+            raise ToolError('model sensitivity: %s produced no counterexample' % name)
+        if expect_ok:
+            cov['states'] = cov.get('states', 0) + res['distinct']
+            cov['transitions'] = cov.get('transitions', 0) + res['generated']
+            cov['mc']['Search: ' + name] = {'distinct_states': res['distinct'], 'generated': res['generated'],
+                                            'properties': 'ValueExact WritesClean EntriesTrue OneBest NoPanic InfoOrdered AllDepths PartialSound Terminates'}
+        else:
+            m = re.search(r'Invariant (\w+) is violated', res['out'])
+            cov['mc']['Search: ' + name] = 'counterexample found: %s' % (m.group(1) if m else 'violation')
